@@ -306,7 +306,7 @@ def run(ctx):
     ctx.level = 'proof'
     ctx.exhaustive = True
     ctx.drop('type annotations', 'docstrings')
-    ctx.trust('Branch.find(mapping) returns a node of the branch that meets the mapping, None iff there is none (Branch.search/Index.select/Node.meets; structural obligations C05.struct.*)',
+    ctx.trust(
               'Model.truth_function(oper, value) follows the spec table (C07)',
               'the frame dictionaries of the model are ghost maps; ModelValueError is raised by set_atomic_value/set_opaque_value exactly when a different value is already stored (interpreted from source)',
               'opaque literal base p stands for any atom / predication / opaque sentence (the closure hooks and _read_node only inspect negation, designation, world)',
@@ -327,9 +327,12 @@ def run(ctx):
     ctx.restate(c10.closing_apply_obligation, 'C10.', 'C05.hook.')
     ctx.samples = [dict(obligation=r.name, status=r.status, meta={k: v for k, v in r.meta.items() if k != 'cex'}) for r in ctx.results[:4]]
     ctx.replayers['C05.'] = lambda r: replay(dict(obligation=r.name, meta=r.meta, counterexample=r.cex))
+    from checks import index_ob
+    index_ob.register_replayers(ctx, 'C05.struct')
 
 def struct_obligations(ctx):
-    pass
+    from checks import index_ob
+    index_ob.index_obligations(ctx, 'C05.struct')
 
 def replay(payload):
     """rebuild the literal set on a real branch of a real tableau, step the closure rules, read the model"""
